@@ -120,15 +120,22 @@ Theorem c15_group_kind_detected :
 Proof. exact group_kind_reported. Qed.
 Print Assumptions c15_group_kind_detected.
 
-(* Known finding C15-fcgi-socket-options: of an fcgi socket only the url is compared *)
-Theorem c15_socket_options_detected_refuted :
-  exists g o m m',
-    g_class g = FCGI /\ g_class o = FCGI /\ g_name g = g_name o /\
-    g_get g "socket_config" = Some (GSock (mksock "UnixStreamSocketConfig" ["url"; "mode"]%string [FVal [1]; m])) /\
-    g_get o "socket_config" = Some (GSock (mksock "UnixStreamSocketConfig" ["url"; "mode"]%string [FVal [1]; m'])) /\
-    m <> m' /\ g_py_ne g o = false /\ reload_answer [g] [o] = ([], [], []).
-Proof. exact socket_options_detected_refuted. Qed.
-Print Assumptions c15_socket_options_detected_refuted.
+(* an fcgi socket's url, backlog, mode, owner: all documented settings are compared ... *)
+Theorem c15_documented_socket_options_compared :
+  forall n, In n documented_socket_attrs -> In n (sock_eq_attrs ++ sock_eq_attrs_dflt).
+Proof. exact documented_socket_attrs_compared. Qed.
+Print Assumptions c15_documented_socket_options_compared.
+
+(* ... and a difference in any compared attribute (generated lists) is reported as changed *)
+Theorem c15_socket_option_detected :
+  forall new cur g o s t n,
+  NoDup (names cur) -> Forall g_wf new ->
+  In g new -> In o cur -> g_name o = g_name g -> g_class g = FCGI -> is_group_class (g_class o) ->
+  g_get g "socket_config" = Some (GSock s) -> g_get o "socket_config" = Some (GSock t) ->
+  In n (sock_eq_attrs ++ sock_eq_attrs_dflt) -> s_val s n <> s_val t n ->
+  let '(_, c, _) := reload_answer new cur in In (g_name g) c.
+Proof. exact socket_option_reported. Qed.
+Print Assumptions c15_socket_option_detected.
 
 (* supervisorctl update, no group names (or "all"): kill never fails, no process of a reported
    group is STOPPING (stoppable): the active groups become exactly those of the file *)
